@@ -308,28 +308,30 @@ def run(prog, rep):
             if fn is None:
                 raise AnalysisError(f'{cls.qual}.{name} vanished')
             fq = f'{cls.name}.{name}'
-            created = None
-            for n in walk_no_nested(fn):
-                if isinstance(n, ast.Assign) and isinstance(n.value, ast.Call) and isinstance(n.value.func, ast.Name) and \
-                        n.value.func.id == 'Interface' and ast.unparse(kwarg(n.value, 'parent_node_id') or ast.Constant(None)) == 'self.node_id' \
-                        and 'NEW' in ast.unparse(kwarg(n.value, 'etype') or ast.Constant(None)):
-                    created = n
-            if created is None:
+            def _is_creation(c):
+                return isinstance(c, ast.Call) and isinstance(c.func, ast.Name) and c.func.id == 'Interface' and \
+                    ast.unparse(kwarg(c, 'parent_node_id') or ast.Constant(None)) == 'self.node_id' and \
+                    'NEW' in ast.unparse(kwarg(c, 'etype') or ast.Constant(None))
+            creations = [c for c in walk_no_nested(fn) if _is_creation(c)]
+            if not creations:
                 raise AnalysisError(f'{fq}: child interface creation not found')
-            var = created.targets[0].id
-            apps = [c for c in walk_no_nested(fn) if isinstance(c, ast.Call) and call_name(c) == 'append' and
-                    ast.unparse(c.func.value) == 'self._interfaces' and c.args and ast.unparse(c.args[0]) == var]
-            rep.instance('R6', f'{fq}: {var} = Interface(NEW under self); self._interfaces.append({var}) x{len(apps)}')
-            if len(apps) != 1 or apps[0].lineno < created.lineno:
-                rep.violation('R6', loc(cls.module, created), fq, f'{var} created but ' + ('appended %d times' % len(apps) if apps else 'never appended to self._interfaces'),
-                              f'{fq} creates a child interface under this element without recording it in the handle\'s interface list: '
-                              f'interface_list / the duplicate-name guard (which read the list) do not see it')
-            p = apps[0] if apps else None
-            while p is not None and p is not fn:
-                p = p._parent
-                if isinstance(p, (ast.If, ast.For, ast.While, ast.Try)):
-                    rep.violation('R6', loc(cls.module, apps[0]), fq, 'cache update is conditional', 'the cache update must happen whenever the interface was created')
-                    break
+            for cr in creations:
+                holder = getattr(cr, '_parent', None)
+                var = holder.targets[0].id if isinstance(holder, ast.Assign) and len(holder.targets) == 1 and isinstance(holder.targets[0], ast.Name) else None
+                apps = [c for c in walk_no_nested(fn) if isinstance(c, ast.Call) and call_name(c) == 'append' and
+                        ast.unparse(c.func.value) == 'self._interfaces' and c.args and
+                        ((var is not None and ast.unparse(c.args[0]) == var) or c.args[0] is cr)]
+                rep.instance('R6', f'{fq}: Interface(NEW under self) ' + (f'bound to a local; ' if var else 'not bound; ') + f'self._interfaces.append(<it>) x{len(apps)}')
+                if len(apps) != 1 or apps[0].lineno < cr.lineno:
+                    rep.violation('R6', loc(cls.module, cr), fq, 'child interface created but ' + ('appended %d times' % len(apps) if apps else 'never appended to self._interfaces'),
+                                  f'{fq} creates a child interface under this element without recording it in the handle\'s interface list: '
+                                  f'interface_list / the duplicate-name guard (which read the list) do not see it')
+                p = apps[0] if apps else None
+                while p is not None and p is not fn:
+                    p = p._parent
+                    if isinstance(p, (ast.If, ast.For, ast.While, ast.Try)):
+                        rep.violation('R6', loc(cls.module, apps[0]), fq, 'cache update is conditional', 'the cache update must happen whenever the interface was created')
+                        break
     # peer() relies on add_interface for the bookkeeping: it must not append again
     ns = prog.cls('fim.user.network_service:NetworkService')
     pr = ns.methods.get('peer')
